@@ -63,8 +63,7 @@ type Task struct {
 
 	Ops          int // operations started
 	OpsPostFault int // operations started after the fault (cancel) fired
-	inOpAtFault  bool
-	parkedAtStepAtFault bool
+	parkedAtFault bool
 	HostPostFault int // host side effects after the fault fired
 	Panic        any // non-sentinel panic that ended the task
 	Client       bool
@@ -112,10 +111,18 @@ type Run struct {
 	wantCancel  atomic.Bool
 	cancelFn    func()
 	Cancelled   atomic.Bool
+	Returned    atomic.Bool // the cancelled call has returned to its caller: post-fault accounting starts here
+	ReturnDecision int
+	ClientBlockedAfterCancel bool // the caller was blocked in the runtime at a quiescent point between cancel and return
+	clientTask  *Task
 	CancelDecision int
 	CancelSite  int
 	CancelKind  int
 	onCancelled func() // scheduler-side callback right after cancelFn()
+	onCancelQuiesced func() // scheduler-side callback at the first quiescence after the cancel
+	cancelQuiesceDone bool
+	CancelOnIdle bool          // fire the cancel when every task is blocked in the runtime
+	CancelAtTime time.Duration // fire the cancel when the fake clock reaches this (all tasks blocked)
 
 	Decisions []Decision
 	traceHash uint64
@@ -123,6 +130,7 @@ type Run struct {
 
 	// outcome
 	Deadlock     bool
+	Finished     bool // the call under test returned normally before any fault
 	DeadlockInfo string
 	BudgetHit    bool
 	Stats        RunStats
@@ -539,7 +547,7 @@ func (r *Run) hook(kind, site int) bool {
 	if kind == kStep {
 		t.Ops++
 		r.totalOps.Add(1)
-		if r.Cancelled.Load() {
+		if r.Returned.Load() {
 			t.OpsPostFault++
 		}
 		r.stepHash = (r.stepHash ^ uint64(t.idx+1)<<20 ^ uint64(site+1)) * 0x100000001b3
@@ -589,7 +597,9 @@ func NewRun(tape *Tape, cfg RunCfg) *Run {
 }
 
 // SetCancel registers the cancellation function the scheduler fires.
-func (r *Run) SetCancel(fn func(), after func()) { r.cancelFn, r.onCancelled = fn, after }
+func (r *Run) SetCancel(fn func(), after func(), quiesced func()) {
+	r.cancelFn, r.onCancelled, r.onCancelQuiesced = fn, after, quiesced
+}
 
 //go:norace
 func (r *Run) eligible(t *Task) bool {
@@ -693,16 +703,41 @@ func (r *Run) fireCancel(nc int) {
 	n := int(r.ntasks.Load())
 	for i := 0; i < n; i++ {
 		t := r.tasks[i]
-		st := t.state.Load()
-		t.parkedAtStepAtFault = st == tParked && t.parkKind == kStep
-		// a task parked at a step hook has not started that operation: it is the
-		// operation "in flight" when it proceeds. A task parked inside an
-		// operation, or blocked in the runtime inside one, is in flight too.
-		t.inOpAtFault = st != tExited
+		t.parkedAtFault = t.state.Load() == tParked
 	}
 	r.cancelFn()
 	if r.onCancelled != nil {
 		r.onCancelled()
+	}
+}
+
+// MarkReturned is called by the client task right after the cancelled call
+// returned: from here on, operations and host side effects count as post-fault.
+//
+//go:norace
+func (r *Run) MarkReturned() {
+	if r.Cancelled.Load() && !r.Returned.Load() {
+		r.ReturnDecision = r.decisions
+		r.Returned.Store(true)
+	}
+}
+
+// WatchClient tells the scheduler which task is the caller of the cancellable
+// entry point (for the promptness invariant).
+func (r *Run) WatchClient(t *Task) { r.clientTask = t }
+
+// Finish is called by the client when the call under test returned without
+// having been cancelled: the program is over (a compiled program would exit
+// here), whatever goroutines it leaked are torn down.
+//
+//go:norace
+func (r *Run) Finish() {
+	if !r.Cancelled.Load() {
+		r.cancelFn = nil
+		r.CancelAtOp, r.CancelAtHook, r.CancelAtTime, r.CancelOnIdle = 0, 0, 0, false
+		r.wantCancel.Store(false)
+		r.Finished = true
+		r.aborting.Store(true)
 	}
 }
 
@@ -733,6 +768,17 @@ loop:
 		if len(cands) == 0 {
 			cands = r.candidates(buf[:0], false)
 		}
+		if r.Cancelled.Load() && !r.Returned.Load() && r.clientTask != nil {
+			if st := r.clientTask.state.Load(); st == tRunning || st == tNew {
+				r.ClientBlockedAfterCancel = true
+			}
+		}
+		if r.Cancelled.Load() && !r.cancelQuiesceDone {
+			r.cancelQuiesceDone = true
+			if r.onCancelQuiesced != nil {
+				r.onCancelQuiesced()
+			}
+		}
 		if r.wantCancel.Load() {
 			r.fireCancel(len(cands))
 			continue
@@ -752,12 +798,29 @@ loop:
 				default:
 				}
 			}
-			idleTimer.Reset(r.Cfg.IdleTimeout)
+			idle := r.Cfg.IdleTimeout
+			canFault := !r.Cancelled.Load() && r.cancelFn != nil
+			if canFault && r.CancelOnIdle {
+				idle = time.Second
+			}
+			if canFault && r.CancelAtTime > 0 {
+				if d := r.CancelAtTime - time.Since(r.start); d < idle {
+					idle = d
+					if idle < 0 {
+						idle = 0
+					}
+				}
+			}
+			idleTimer.Reset(idle)
 			r.Stats.IdleAdvances++
 			select {
 			case <-r.kick:
 				continue
 			case <-idleTimer.C:
+				if canFault && (r.CancelOnIdle || r.CancelAtTime > 0) {
+					r.fireCancel(0)
+					continue
+				}
 				r.Deadlock = true
 				r.DeadlockInfo = r.describeBlocked()
 				r.aborting.Store(true)
@@ -803,6 +866,11 @@ loop:
 		}
 		r.traceHash = (r.traceHash ^ uint64(t.idx+1)<<40 ^ uint64(t.parkSite+2)<<8 ^ uint64(t.parkKind)) * 0x100000001b3
 		t.quantum = q
+		if q == 0 {
+			// "run until it blocks", bounded so that a spinning task cannot starve
+			// the others (the Go runtime is preemptive).
+			t.quantum = 48
+		}
 		r.last = t
 		r.grant.Store(t)
 		t.wake <- struct{}{}
